@@ -22,6 +22,9 @@ class PlanJoinTSPredictorQuery:
 
         join = query.from_table
         join_left = join.left
+        if not isinstance(join_left, Select):
+            # the predictor is written first: the sub-select is the right operand
+            join_left = join.right
 
         # dbt query.
 
